@@ -218,6 +218,12 @@ func runMixedProp(c *fw.Ctx, prop string) {
 	case "C17":
 		w.Ent, w.Reg = 40, 35
 		o.Ent.MinAccepts = 1
+		// 3-8 denominations, sorting before, between, just around and after the native one
+		for _, d := range []string{"aaa", "ibc/27394FB092D2ECCD56123C74F36E4C1F926001CEADA9CA97EA622B25F41E5EB2", "nunc", "nune", "uzzz", "zzz"} {
+			if r.Chance(40) {
+				o.ExtraDenoms = append(o.ExtraDenoms, d)
+			}
+		}
 	case "C02":
 		o.Ent.MinAccepts = uint64(minInt(int(o.Ent.MinAccepts), 2))
 	}
